@@ -160,10 +160,37 @@ fn process_dir(
     matcher: &dyn matchers::Matcher,
     quit: &mut bool,
 ) -> i32 {
-    let mut walkdir = WalkDir::new(dir)
+    // walkdir defers a directory until its contents have been visited (-depth) only if
+    // the entry itself is a directory.  A starting point that is a symbolic link to a
+    // directory, followed because of -H, is still a link to walkdir: it would be yielded
+    // first, and the directories below it late and out of order.  Spelled with a trailing
+    // slash the starting point is a directory to walkdir as well: its contents are walked
+    // from there (the paths below it come out the same), and the starting point itself,
+    // as it was given, is evaluated when the iterator is exhausted.
+    let root_is_followed_link = config.depth_first
+        && config.follow == Follow::Roots
+        && config.max_depth > 0
+        && !dir.ends_with('/')
+        && std::fs::symlink_metadata(dir).is_ok_and(|m| m.file_type().is_symlink())
+        && std::fs::metadata(dir).is_ok_and(|m| m.is_dir());
+    let mut held_root = if root_is_followed_link && config.min_depth == 0 {
+        Some(WalkEntry::new(dir, 0, config.follow).with_starting_point(dir))
+    } else {
+        None
+    };
+    let walk_root = if root_is_followed_link {
+        format!("{dir}/")
+    } else {
+        dir.to_string()
+    };
+    let mut walkdir = WalkDir::new(walk_root)
         .contents_first(config.depth_first)
         .max_depth(config.max_depth)
-        .min_depth(config.min_depth)
+        .min_depth(if root_is_followed_link {
+            config.min_depth.max(1)
+        } else {
+            config.min_depth
+        })
         .same_file_system(config.same_file_system)
         .follow_links(config.follow == Follow::Always)
         .follow_root_links(config.follow != Follow::Never);
@@ -191,8 +218,17 @@ fn process_dir(
     } else {
         None
     };
-    while let Some(result) = it.next() {
-        match WalkEntry::from_walkdir(result, config.follow).map(|e| e.with_starting_point(dir)) {
+    loop {
+        let next = match it.next() {
+            Some(result) => {
+                WalkEntry::from_walkdir(result, config.follow).map(|e| e.with_starting_point(dir))
+            }
+            None => match held_root.take() {
+                Some(root) => Ok(root),
+                None => break,
+            },
+        };
+        match next {
             Err(err) => {
                 ret = 1;
                 writeln!(&mut stderr(), "Error: {err}").unwrap();
